@@ -100,6 +100,15 @@ PROPS = {
         unit("c17-inputs", "proxy/gzip", ["gzip/c17_test.go"], "^TestVerifC17Inputs", engines=SCHED),
         unit("c17-sched", "proxy/gzip", ["gzip/c17_test.go"], "^TestVerifC17Sched", engines=SCHED, shards={"quick": 1, "thorough": 16}, rewrite=[{"files": ["proxy/gzip/gzip_handler.go"], "opts": ["-imports", "-stmt"]}], race=True, sched_env={"GOMAXPROCS": "2"}),
     ], layers={"quick": ["c17-inputs", "c17-sched"], "thorough": ["c17-inputs", "c17-sched"]}),
+    "C20": dict(level="exploration", engine="benum",
+        technique="bounded-exhaustive events x formats against standard-library renderings; formatters on all 2^16 / 2^32 values",
+        level_text="Every documented log field over the event product (times incl. non-UTC zones, durations, sizes, statuses, addresses with/without port, headers), stock formats and all two-field concatenations with literal text, invalid formats; uint16base16 on all 2^16 values, i32toa on all 2^32 values (thorough) or boundaries + lattice (quick), atoi on boundaries + 10^5/10^6 lattice x pads, uuid.ToString on every byte position x value.",
+        level_note="For $remote_host/$upstream_host on a bracketed IPv6 address both the bracketed and the net.SplitHostPort form are accepted (the statement does not choose). Negative durations are outside the alphabet.",
+        units=[
+        unit("c20-logger", "logger", ["logger/c20_test.go"], "^TestVerifC20"),
+        unit("c20-formatters", "proxy", PROXY_COMMON + ["proxy/c20_test.go"], "^TestVerifC20"),
+        unit("c20-uuid", "uuid", ["uuid/c20_test.go"], "^TestVerifC20"),
+    ], layers={"quick": ["c20-fields", "c20-formats", "c20-atoi", "c20-formatters", "c20-uuid"], "thorough": ["c20-fields", "c20-formats", "c20-atoi", "c20-formatters", "c20-uuid"]}),
 }
 
 def layer_unit(pid, layer):
